@@ -104,12 +104,15 @@ PROPS = {
     },
     "C15": {
         "module": "HctlProofs.Props.C15",
-        "theorems": ["Hctl.C15.k_irrelevant", "Hctl.C15.sanitize_succeeds", "Hctl.C15.sanitize_eq_raw"],
+        "theorems": ["Hctl.C15.k_irrelevant", "Hctl.C15.sanitize_succeeds", "Hctl.C15.sanitize_eq_raw",
+                     "Hctl.C15.sanitize_of_sem", "Hctl.C15.k_irrelevant_sem", "Hctl.C15.formulaeDirty_sanitisable"],
         "ks": ["o15"],
-        "spec_tied": ["o15:pure_"],
-        "full": False,
-        "not_proved": "stated for plain formulae and the cache-free evaluator; `transfer_from` of lib-param-bn is modelled as "
-                      "'fails iff the set depends on a spare variable'",
+        "spec_tied": ["o15:eval "],
+        "full": True,
+        "not_proved": "nothing of the statement on the model: sanitize_of_sem / k_irrelevant_sem hold for every semantically exact result "
+                      "(plain or extended, cached or not) of a closed formula, formulaeDirty_sanitisable is the entry-point form; "
+                      "`transfer_from` of lib-param-bn is MODELLED as 'fails iff the set depends on a spare variable' and the canonical "
+                      "encoding as a function of (state, colour) — the library side is compared by O15",
         "rule": "O15: closed formulae x k = depth..depth+2; raw vs sanitised; comparison with SymbolicAsyncGraph::new",
         "assumptions": EVAL_ASSUME,
     },
